@@ -55,6 +55,16 @@ def run(ctx, sess):
             fl = [c for c in run_fn.calls('jls_wr_flush') if ev_dominates(c, ev)]
             ctx.ob('C07.1', bool(fl), run_fn.name, 'store to flush_processed_id', ev.where(),
                    'dominated by jls_wr_flush' if fl else 'ticket published before the file was flushed')
+            # ... and only when the flush succeeded: no path from the flush to the store avoids its zero-result edge
+            from ..guard import zero_edges_of_call
+            for c in fl:
+                okedges = zero_edges_of_call(run_fn, c)
+                w = find_path(run_fn, c, lambda e2, facts: 'target' if e2 is ev else None, refine=False,
+                              edge_ok=lambda b_, s_, label: (b_.id, label) not in okedges) if okedges else True
+                ctx.ob('C07.1', w is None, run_fn.name, 'ticket published only when jls_wr_flush returned 0', ev.where(),
+                       'store lies behind the zero-result edge of the flush' if w is None else
+                       'the ticket is published whatever jls_wr_flush returned: jls_twr_flush reports success although the sync failed',
+                       w.render() if (w is not None and w is not True) else None)
     ctx.floor('stores to flush_processed_id in the consumer', n, 1)
     # the ticket that is published is the one carried by the FLUSH message being processed (monotone max with itself)
     for ev in run_fn.stores():
